@@ -56,6 +56,14 @@ CHECKS["C09"] = dict(
     note="trusted: renderer, date_printed projection, clock shim, TLC; month / year shifts only where the target day exists; literal sets are bounded",
     ref="7 C09")
 
+CHECKS["C14"] = dict(
+    technique="TLA+ spec (UnixTime.tla over Calendar.tla) model-checked by TLC; TLC-enumerated timestamp / date lines replayed into the code; random traces validated by TLC (Trace.tla)",
+    text="TLC model-checks on UnixTime.tla that timestamp -> date-time -> timestamp is the identity for 8 offsets and that the printed local date-time read back gives the instant, on 2,325 "
+         "boundary and grid timestamps of years 1..9999; enumerates boundary timestamps and a grid x default and explicit zones under 2 default zones as 'N to date' / 'N to Z' and as the "
+         "one-line round trip, dates and times 'as unix', each with the expected instant, zone, printed fields and printed digits; random timestamps and dates are executed and validated by TLC.",
+    note="trusted: renderer, timestamp split and date-time text projection, TLC; '<time> as unix' only under a UTC default zone; 'date at N' is not used",
+    ref="7 C14")
+
 NOT_YET = {
 }
 
